@@ -87,8 +87,22 @@ def eval (F : Facts) : List String → Option String
     some s!"ok [{",".intercalate got}] =T"
   | _ => none
 
+/-- `drv` lines serve several properties: each disagreement is attributed to the one it concerns -/
+def judgeDrv (e : String) (impl : List String) : String :=
+  match e.splitOn " ", impl with
+  | [eo, et, er], [io, it, ir] =>
+    let cs : List String :=
+      (if io = eo then []
+       else if io = "ok" ∨ io = "wrong-result" then [s!"C03 the call reported a result ({io}) on the basis of a datagram it must not accept; expected: {e}"]
+       else [s!"C09 the call failed ({io}) although an acceptable reply arrived before its deadline; expected: {e}"]) ++
+      (if it = et then [] else [s!"C09 the call returned in time class {it}; expected: {e}"]) ++
+      (if ir = er then [] else [s!"C06 {ir}; expected: {e}"])
+    if cs.isEmpty then "ok" else "bad " ++ " | ".intercalate cs
+  | _, _ => "bad expected: " ++ e
+
 def spec (c impl : List String) : Option String :=
   match c with
+  | "drv" :: _ => (eval idealFacts c).map fun e => if e = "unspecified" then "unspecified" else judgeDrv e impl
   | ["lock", "tcp-same-endpoint-twice"] => some (Driver.expect "first:ok second:ok" impl)   -- the controller would answer
   | _ => (eval idealFacts c).map fun e => if e = "unspecified" then "unspecified" else Driver.expect e impl
 
